@@ -128,7 +128,9 @@ def planeroute(run, fx):
         guarded = any(f[0] in tbls and f[1] == '!=' for f in fs)
         got.add((fmt, start, limit, tbl, guarded))
         inst = 'CachedCmap fill format %d' % fmt
-        wantrow = (12, 0xFFFF, 0x10FFFF) if fmt == 12 else (4, 0, 0xFFFF)
+        # (start, limit): the fill asks for the successors of `start` and stops at the first code point >= limit.  Format 4 answers for every
+        # usv <= 0xFFFF and format 12 for every usv in (0xFFFF, 0x10FFFF] in DirectCmap, U+FFFF and U+10FFFF included (defect F21: the limits were one short)
+        wantrow = (12, 0xFFFF, 0x110000) if fmt == 12 else (4, 0, 0x10000)
         if (fmt, start, limit) == wantrow and guarded:
             run.held('PLANEROUTE', inst, c.loc(e), 'code points in (%#x, %#x) from %s' % (start, limit, tbl))
         else:
@@ -446,7 +448,9 @@ def agree(run, fx, rule='PLANEROUTE'):
         return fx.fn(key if key in fx.raw['functions'] else '%s@CmapCache.cpp' % key)
 
     def mk4(segs):
-        segs = list(segs) + [(0xFFFF, 0xFFFF, 1)]           # (start, end, idDelta); the terminator maps 0xFFFF to glyph 0
+        segs = list(segs)
+        if not segs or segs[-1][1] != 0xFFFF:
+            segs.append((0xFFFF, 0xFFFF, 1))               # (start, end, idDelta); the terminator maps 0xFFFF to glyph 0
         n = len(segs)
         flat = O.Vec([e_ for s_, e_, d_ in segs] + [0] + [s_ for s_, e_, d_ in segs] + [d_ & 0xFFFF for s_, e_, d_ in segs] + [0] * n)
         tab = O.Rec()
@@ -487,10 +491,12 @@ def agree(run, fx, rule='PLANEROUTE'):
     f4, f12 = fn_of(fills[4][0]), fn_of(fills[12][0])
     try:
         bmp_sets = [sg for sg in segsets(2, 0, 6)]
+        # the format only requires that the last segment END at 0xFFFF: it may carry real mappings
+        bmp_sets[7:7] = [[(2, 3), (0xFFFC, 0xFFFF)], [(0xFFFA, 0xFFFF)]]
         smp_sets = [[]] + [sg for sg in segsets(1, 0xFFFE, 0x10002)] + [[(0x10000, 0x10001), (0x10003, 0x10004)]]
         for k, bmp in enumerate(bmp_sets):
             for smp in (smp_sets if k % 7 == 0 else smp_sets[:2]):
-                t4 = mk4([(a, b, 10 - a) for a, b in bmp])         # glyph = code point + 10 - start
+                t4 = mk4([(a, b, (10 - a) if b != 0xFFFF else (0x10000 + 30 - a)) for a, b in bmp])         # glyph = code point + 10 - start (30 - start in a real last segment)
                 t12 = mk12([(a, b, 100 + j * 20) for j, (a, b) in enumerate(smp)]) if smp else None
                 blocks = O.Vec([O.Ptr(None) for _ in range(0x1100 if t12 is not None else 0x100)])
                 cc = O.Rec()
@@ -510,7 +516,7 @@ def agree(run, fx, rule='PLANEROUTE'):
                     it = O.Interp(fx, natives=nat)
                     it.MAX_STEPS = 60000
                     it.call(f4, None, [O.It(blocks, 0), O.Ptr(t4), fills[4][1], fills[4][2]])
-                    probe = sorted(set(range(0, 9)) | {0xFFFD, 0xFFFE, 0xFFFF, 0x10000, 0x10001, 0x10002, 0x10003, 0x10004, 0x10005, 0x10FFFF})
+                    probe = sorted(set(range(0, 9)) | {0xFFF9, 0xFFFA, 0xFFFB, 0xFFFC, 0xFFFD, 0xFFFE, 0xFFFF, 0x10000, 0x10001, 0x10002, 0x10003, 0x10004, 0x10005, 0x10FFFF})
                     for c_ in probe:
                         a_ = O.Interp(fx, natives=nat).call(cop, cc, [c_])
                         b_ = O.Interp(fx, natives=nat).call(dop, dc, [c_])
